@@ -227,6 +227,13 @@ pub fn check_relations(bytes: &[u8], st: &mut Stats) -> Result<(), String> {
                 _ => return Err(format!("[{}] unknown_data changes success", name(b))),
             }
         }
+        // R3': "the default result is a subsequence of the result with the ordering rule disabled" says in particular that
+        // the latter exists whenever the former does (validation aside: the opt-out decoder validates more attributes)
+        if b & 8 != 0 && b & 2 == 0 {
+            if let (Ok(_), Err(e)) = (&res[(b & !8) as usize], &res[b as usize]) {
+                return Err(format!("[{}] the default-order decode succeeds but the decode with the ordering rule disabled fails: {}", name(b), e));
+            }
+        }
         // R3: with the ordering rule disabled every wire attribute is returned in order; default is the admitted subsequence
         if b & 8 != 0 {
             if let Ok((all, _)) = &res[b as usize] {
